@@ -8,6 +8,8 @@ def run():
     bad = 0
     for d in ("abs", "mech", "mc", "trace"):
         for p in sorted(glob.glob(os.path.join(SPEC, d, "*.tla"))):
+            if p.endswith("Apa.tla"):
+                continue                      # typed Apalache module (parsed by apalache-mc itself)
             ok, out = tlc.sany(p)
             if not ok:
                 bad += 1
